@@ -1247,3 +1247,67 @@ def value_root(t):
             t = t.a[0]
         else:
             return t
+
+
+def compare_switch(fn, sw, og=None):
+    """for a bool switch whose discriminant is a comparison: (op, lhs term, rhs term, true targets, false targets), `Not` folded in"""
+    t = fn.blocks[sw]["t"]
+    if t["k"] != "switch":
+        return None
+    og = og or Origins(fn)
+    term, neg = strip_not(og.of_operand(t["d"]))
+    if term.k != "bin" or term.a[0] not in ("Lt", "Le", "Gt", "Ge", "Eq", "Ne"):
+        return None
+    zero, true_t = bool_edges(fn, sw)
+    if neg:
+        zero, true_t = true_t, zero
+    return term.a[0], term.a[1], term.a[2], true_t, zero
+
+
+def edges_where_less(cmp, a_pred, b_pred):
+    """targets of the comparison switch on which `a < b` is possible, for the operands recognised by the two predicates;
+    None if the comparison is not between a and b"""
+    op, l, r, tt, ft = cmp
+    if a_pred(l) and b_pred(r):
+        swapped = False
+    elif a_pred(r) and b_pred(l):
+        swapped = True
+    else:
+        return None
+    if not swapped:
+        table = {"Lt": tt, "Le": tt, "Ge": ft, "Gt": ft, "Ne": tt, "Eq": ft}
+    else:
+        table = {"Gt": tt, "Ge": tt, "Le": ft, "Lt": ft, "Ne": tt, "Eq": ft}
+    return table[op]
+
+
+def error_starts(fn):
+    """first blocks of every error-propagation edge in fn: the Break arm of each `?` (Try::branch), and the Err arm of
+    every Result-returning call that is matched explicitly"""
+    c = fn._cache.get("error_starts")
+    if c is not None:
+        return c
+    out = set()
+    for b, t in fn.calls():
+        n = cname(t)
+        if n.endswith("::branch") and ("Try" in (t.get("callee") or "") or "Try" in n):
+            cf = t["dest"]["l"]
+            for u2 in uses_of(fn, cf):
+                if u2[0] == "stmt" and u2[3]["rv"]["k"] == "discr":
+                    dl = u2[3]["p"]["l"]
+                    for u3 in uses_of(fn, dl):
+                        if u3[0] == "switch":
+                            for v, tg in u3[3]["vs"]:
+                                if v == 1:
+                                    out.add(tg)
+        else:
+            ty = fn.local_ty(t["dest"]["l"]) if not t["dest"]["p"] else ""
+            if ty.startswith("std::result::Result<"):
+                rf = result_flow(fn, b)
+                if rf.err_blocks and not rf.returned:
+                    out.update(rf.err_blocks)
+                elif rf.err_blocks:
+                    out.update(rf.err_blocks)
+    out = sorted(out)
+    fn._cache["error_starts"] = out
+    return out
